@@ -19,6 +19,7 @@ EXPLANATION = ("Static rules over ProcessTasks/MakeTasks/Multiprocessor: under t
                "before the yield, the per-task try/except contains every failure, shared evaluation state "
                "(CobaContext.learning_info) is cleared per evaluation, and chunks cross the process boundary pickled.")
 EXPLANATION += ' R7: learners held by environment filters reach evaluate/learn/predict only as deep copies.'
+EXPLANATION += ' R8: no class-level mutable container on the evaluation path and stateless built-in evaluators; R9: __reduce__ passes every constructor parameter; R10: a failing source cannot leave a truncated replay buffer to the other triples.'
 
 PROC = "coba/experiments/process.py"
 PMP = "coba/pipes/multiprocessing.py"
